@@ -539,6 +539,11 @@ func (parser *routeParser) getMatch(detectionPath, path string, params *[maxPara
 			if !segment.IsOptional && i == 0 {
 				return false
 			}
+			// a request holds at most maxParams values: a pattern with more parameters
+			// matches nothing (register refuses such a route)
+			if paramsIterator >= len(params) {
+				return false
+			}
 			// take over the params positions
 			params[paramsIterator] = path[:i]
 
